@@ -26,8 +26,8 @@ Fails(r) ==
              /\ {<<LowerName(ParseName(r.flat[k].name).name), r.flat[k].type, r.flat[k].n>> : k \in 1..Len(r.flat)}
                   = {<<z.recs[k].owner, z.recs[k].type, Len(RRsetAt(z, z.recs[k].owner, z.recs[k].type))>> : k \in 1..Len(z.recs)}
              /\ ApexSet(z, 6, r.soa) /\ ApexSet(z, 2, r.ns))
-  \cup Chk("C21", /\ r.val.ok
-                  /\ got = v.issues
+  \cup Chk("C21", /\ r.val.ok = v.ok
+                  /\ (v.ok => got = v.issues)
                   /\ \A k \in 1..Len(r.val.issues) : r.val.issues[k].err = IsErrorKind(r.val.issues[k].k))
 
 VARIABLES l, bad, nbad
